@@ -5,6 +5,39 @@
 pub open spec fn frames_view(s: Seq<Bytes>) -> Seq<Seq<u8>> {
     s.map_values(|b: Bytes| b_view(&b))
 }
+pub mod fv_lemmas {
+use super::*;
+pub broadcast proof fn lemma_frames_view_push(s: Seq<Bytes>, b: Bytes)
+    ensures #[trigger] frames_view(s.push(b)) == frames_view(s).push(b_view(&b)),
+{
+    assert(frames_view(s.push(b)) =~= frames_view(s).push(b_view(&b)));
+}
+pub broadcast proof fn lemma_frames_view_one(b: Bytes)
+    ensures #[trigger] frames_view(seq![b]) == seq![b_view(&b)],
+{
+    assert(frames_view(seq![b]) =~= seq![b_view(&b)]);
+}
+pub broadcast proof fn lemma_frames_view_empty()
+    ensures #[trigger] frames_view(Seq::<Bytes>::empty()) == Seq::<Seq<u8>>::empty(),
+{
+    assert(frames_view(Seq::<Bytes>::empty()) =~= Seq::<Seq<u8>>::empty());
+}
+pub broadcast proof fn lemma_frames_view_add(a: Seq<Bytes>, b: Seq<Bytes>)
+    ensures #[trigger] frames_view(a + b) == frames_view(a) + frames_view(b),
+{
+    assert(frames_view(a + b) =~= frames_view(a) + frames_view(b));
+}
+pub broadcast proof fn lemma_frames_view_subrange(a: Seq<Bytes>, i: int, j: int)
+    requires 0 <= i <= j <= a.len(),
+    ensures #[trigger] frames_view(a.subrange(i, j)) == frames_view(a).subrange(i, j),
+{
+    assert(frames_view(a.subrange(i, j)) =~= frames_view(a).subrange(i, j));
+}
+pub broadcast group group_frames_view {
+    lemma_frames_view_push, lemma_frames_view_one, lemma_frames_view_empty, lemma_frames_view_add, lemma_frames_view_subrange,
+}
+}
+
 impl ZmqMessage {
     /// the frames as exec values
     pub closed spec fn fr(&self) -> Seq<Bytes> { self.frames@ }
